@@ -52,6 +52,35 @@ def split_iterations(lines):
     return its
 
 
+def fates(events):
+    """every packet of a traversal task is accounted for by what happened to it: a packet whose traversal ends in direction i of a
+    subgrid that has a neighbour there is stored for that neighbour, a packet absorbed with re-emission on is stored for the re-emission
+    task, and exactly the other ones (absorbed without re-emission, left the box) are counted as terminated"""
+    begin = [e for e in events if e[1] == "ITER_BEGIN"][0]
+    reemit = begin[6]
+    ngb = {e[3]: e[4:31] for e in events if e[1] == "NGB"}
+    last, errs, n = {}, [], 0
+    for e in events:
+        if e[1] == "TRAVRES":
+            last[e[2]] = e[3:30]
+        elif e[1] == "TRAV":
+            res = last.pop(e[2], None)
+            if res is None:
+                continue
+            n += 1
+            sg, size, done, out = e[4], e[5], e[6], e[7:34]
+            nb = ngb.get(sg)
+            if nb is None:
+                continue
+            want = [(res[0] if reemit else 0)] + [(res[i] if nb[i] != -1 else 0) for i in range(1, 27)]
+            if sum(res) != size or list(out) != want or done != size - sum(want):
+                bad = [i for i in range(27) if out[i] != want[i]]
+                errs.append("traversal of a buffer of %d packets in subgrid %d: the traversal sent %s packets to directions %s (neighbours there: %s), but %s were stored for them; "
+                            "%d packets are counted as terminated, %d were absorbed%s or left the box" % (size, sg, [res[i] for i in bad], bad, [nb[i] for i in bad], [out[i] for i in bad],
+                                                                                                   done, size - sum(want), "" if not reemit else " (none: re-emission is on)"))
+    return n, errs
+
+
 def translate(events, tt):
     """one iteration's events -> validator commands"""
     cmds = []
@@ -89,6 +118,8 @@ def translate(events, tt):
     run_cmds = {}         # index of RUN event -> (commands, set of created task indices)
     for i, e in enumerate(body):
         t = e[2]
+        if e[1] == "TRAVRES":
+            continue
         if e[1] in ("TRAV", "REEMIT", "SRCD", "SRCC_DEST", "SRCC_LAUNCH", "SRCC_FLUSHTASK", "SRCC_END", "FLUSH_LAUNCH", "FLUSH_END"):
             pending_detail.setdefault(t, []).append(e)
         elif e[1] == "RUN":
@@ -285,6 +316,9 @@ def run_one(exe, validator, base, cfg, tt, perturb=False, serialize=True):
                     res["hist"][a] = res["hist"].get(a, 0) + int(b)
         if census["buffers"] != 0 or census["shared"] != 0 or any(census["queues"]) or census["done"] != info["nreq"]:
             errs.append("census at iteration end on the REAL code: %r (requested %d)" % (census, info["nreq"]))
+        nf, ferrs = fates(events)
+        res["fates_checked"] = res.get("fates_checked", 0) + nf
+        errs += ferrs[:3]
         res["iterations"].append({"events": len(events), "commands": len(cmds), "census": census, "errors": errs[:5]})
         if errs:
             res["errors"].append("iteration %d: %s" % (k, " | ".join(errs[:3])))
@@ -509,6 +543,7 @@ def run(ck):
                 ck.violation("C01: with a thread that fetched a flush task in the else branch delayed until the run flag is cleared, the NEXT iteration never finishes: a fetched task was dropped and its dependency stays locked",
                              {"config": c[0], "threads": c[3], "perturbation": "CMI_VERIF_HOLD_ELSE_FLUSH", "exit": r["rc"]}, key={"kind": "else_fetch_dropped"})
     nlabels = sum(r["labels"] for r in results)
+    ck.coverage["traversal_tasks_with_packet_fates_checked"] = sum(r.get("fates_checked", 0) for r in results)
     hist = {}
     sigs = set()
     for r in results:
@@ -519,7 +554,7 @@ def run(ck):
         for e in r["errors"]:
             if r["rc"] in (124, 153, -25) and any(v["key"].get("kind") == "else_fetch_dropped" for v in ck.violations):
                 continue
-            if "REAL code" in e or "exits with status" in e:
+            if "REAL code" in e or "exits with status" in e or "traversal of a buffer" in e:
                 ck.violation("C01 fails on the real binary (%s): %s" % (r["name"], e), {"config": r["name"], "error": e, "iterations": r["iterations"][:3]},
                              key={"kind": "iteration", "config": re.sub(r"_t\d+.*$", "", r["name"])})
             else:
